@@ -397,7 +397,9 @@ class Gen:
                 add("zip", lambda g, sc, d: C("zip", *[g(self.arr_kind()) for _ in range(r.choice((2, 2, 3, 4)))]) if r.random() < 0.5 else
                     C("cross", *[g(self.arr_kind()) for _ in range(r.choice((2, 2, 3)))]))
                 # many lists: the members of a row stay in the order of the lists (.0 .1 .2 ... .10 .11), whatever their number
-                add("zip", lambda g, sc, d: C(r.choice(("zip", "zip", "cross")), *[("lit", [r.choice((0, 1, "a", None, [2]))] * r.choice((1, 1, 1, 2, 0))) for _ in range(r.choice((10, 11, 12, 13)))]))
+                # (cross: at most three of the lists hold two elements, so a row set stays below a hundred rows)
+                add("zip", lambda g, sc, d: (lambda fn, n: C(fn, *[("lit", [r.choice((0, 1, "a", None, [2]))] * (r.choice((1, 1, 1, 2, 0)) if fn == "zip" or i < 3 else 1)) for i in range(n)]))(
+                    r.choice(("zip", "zip", "cross")), r.choice((10, 11, 12, 13))))
                 add('"sort_by"', lambda g, sc, d: C('"sort_by"', ("lit", [{"n": 1, "s": "10"}, {"n": 2, "s": "9"}, {"n": 3, "s": "1e1"}, {"n": 4, "s": "x"}]),
                                                     ("path", 0, (("k", "s"),))))
         if kind in ("obj", "any"):
